@@ -64,7 +64,9 @@ func (n *WALNode) Open(ctx context.Context, req *fuse.OpenRequest, resp *fuse.Op
 	resp.Flags |= fuse.OpenKeepCache
 
 	f, err := n.db.OpenWAL(ctx)
-	if err != nil {
+	if os.IsNotExist(err) {
+		return nil, syscall.ESTALE // stale cached entry, see JournalNode.Open
+	} else if err != nil {
 		return nil, err
 	}
 	return newWALHandle(n, f), nil
